@@ -192,6 +192,14 @@ def small_worker(job):
                         nodes.append(treegen.Node("r/%s/sub/deep" % dn, "f"))
             else:
                 nodes = treegen.random_tree(rng, "r", max_nodes=rng.choice([5, 15, 40]), link_kinds=("file", "dangling"))
+            if rng.random() < 0.25:
+                # names that are not valid UTF-8: every batch must still carry the exact bytes
+                dirs_ = [n.path for n in nodes if n.kind == "d"]
+                for nm in rng.sample(["caf\udce9", "x\udcff", "\udce8re", "a\udc80b", "é\udce9"], rng.randint(1, 3)):
+                    pth = rng.choice(dirs_) + "/" + nm
+                    if all(n.path != pth for n in nodes):
+                        nodes.append(treegen.Node(pth, rng.choice(["f", "f", "d"])))
+                st.inc("trees_with_non_utf8_names")
             try:
                 treegen.build(sb, nodes)
             except OSError:
@@ -200,7 +208,7 @@ def small_worker(job):
             tag = "X%d_%d" % (k, t)
             toks, shape, kind, fixed = gen_small(rng, tag)
             roots = ["r"]
-            dirs = [n.path for n in nodes if n.kind == "d" and n.path != "r"]
+            dirs = [n.path for n in nodes if n.kind == "d" and n.path != "r" and not any(0xDC80 <= ord(ch) <= 0xDCFF for ch in n.path)]
             if dirs and rng.random() < 0.25:
                 roots = ["r", rng.choice(dirs)]
                 st.inc("runs_with_two_starting_points")
